@@ -6,7 +6,12 @@ prop="$1"; id="$2"; wt="${3:-/tmp/wt-$prop}"
 out=/verif/seeded/$id; mkdir -p "$out"
 cd "$wt" || exit 2
 export CARGO_TARGET_DIR=$wt/target CARGO_NET_OFFLINE=true
-demo_cmd=$(cat .seed/DEMO_CMD.txt | head -1)
+demo_cmd=$(grep -v "^ *#" .seed/DEMO_CMD.txt | grep -v "^ *$" | head -1)
+# (an `export VAR=..` line goes together with the command behind it)
+if [ "${demo_cmd#export}" != "$demo_cmd" ]; then
+  second=$(grep -v "^ *#" .seed/DEMO_CMD.txt | grep -v "^ *$" | sed -n 2p)
+  demo_cmd="$demo_cmd; $second"
+fi
 demos=$(git status --short | grep '^??' | awk '{print $2}' | grep -v '^.seed')
 # state: change applied?
 git diff --quiet && git apply .seed/patch.diff
